@@ -64,7 +64,10 @@ fn gen_source(r: &mut Rng, tag: &str) -> (Vec<u8>, usize) {
         }
         let c = if r.chance(1, 4) {
             let cut = content.find("BT\n").unwrap_or(0);
-            let a = pdf.add_stream("", content[..cut].as_bytes());
+            // the boundary between two content streams acts as white space (ISO 32000-1 7.8.2): half of the
+            // time the first stream ends right after its last operator, without a trailing end-of-line
+            let first = if r.bool() { content[..cut].trim_end() } else { &content[..cut] };
+            let a = pdf.add_stream("", first.as_bytes());
             let b = pdf.add_stream("", content[cut..].as_bytes());
             format!("[{a} 0 R {b} 0 R]")
         } else {
